@@ -379,7 +379,7 @@ func mangleCases(r *Rng, n int, cf *CoqFile, st *Stats) {
 		src := sb.String()
 		res := api.Transform(src, api.TransformOptions{Loader: api.LoaderCSS, MinifySyntax: true, LogLevel: api.LogLevelSilent})
 		if len(res.Errors) > 0 {
-			st.Fail("mangle-transform-error", src, res.Errors[0].Text, "no error")
+			failC12(st, "mangle-transform-error", src, res.Errors[0].Text, "no error")
 			continue
 		}
 		out := string(res.Code)
@@ -478,7 +478,7 @@ func numberCases(r *Rng, n int, cf *CoqFile, st *Stats) {
 		a, ok1 := ratOfNumber(t)
 		b, ok2 := ratOfNumber(out)
 		if ok1 && (!ok2 || a.Cmp(b) != 0) {
-			st.Fail("number-value-changed", map[string]interface{}{"number": t}, out, t)
+			failC12(st, "number-value-changed", map[string]interface{}{"number": t}, out, t)
 		}
 	}
 	cf.AddCases("num_cases", "list Z * list Z * bool", "check_num", items)
@@ -522,7 +522,7 @@ func numberCases(r *Rng, n int, cf *CoqFile, st *Stats) {
 				if ov == "" || ov == "+" || ov == "-" {
 					in["scenario"] = "shift-dot-drops-all-digits"
 				}
-				st.Fail("time-value-changed", in, ov+ou, t+unit)
+				failC12(st, "time-value-changed", in, ov+ou, t+unit)
 			}
 		}
 	}
